@@ -76,6 +76,7 @@ func (vmi *Vm) String() string {
 // in the menu renderer.
 func (vmi *Vm) WithMenuSeparator(sep string) *Vm {
 	vmi.menuSeparator = sep
+	vmi.Reset()
 	return vmi
 }
 
